@@ -59,6 +59,17 @@ CHECKS.update({
          "5/C17"),
 })
 
+CHECKS.update({
+ "C09": ("metamorphic runtime monitor over the full 2^6 configuration cube x 3 marketing sets: self-match, separation, permutation, marketing parameters (+ Location forwarding), case swap, idempotence",
+         "No reference normaliser: the rule side and the request side of the real library must agree with each other. For every configuration and generated URL (reserved/unreserved punctuation, spaces, quotes, '+', %xx incl. invalid UTF-8, raw non-ASCII, characters the URI parser rejects; repeated keys, empty values, keys without '=', '&&', trailing '&', '?' alone) the monitor checks M1 self-match, M2 separation, M3 parameter permutation, M4 marketing parameters ignored and forwarded to the target iff configured, M5 ASCII case swap under the case flag, M6 idempotence. Failures are known findings only for three exact signatures computed in the harness (normalisation skipped + non-canonical request; rule query containing a configured marketing key; sort-before-lowercase).",
+         "The http crate's URI parser and a harness-side form decoder/canonical query are used only for generation and for the known-finding signatures.",
+         "5/C09"),
+ "C10": ("generator-knows-the-answer runtime monitor: templates instantiated with accepted / unambiguously rejected strings; expected substitutions computed by an independent longest-name-first substituter and transformer model",
+         "Templates over path, query, host and match_regex headers with 1-4 markers whose names are prefixes of one another and 8 typed expressions are instantiated; the rule must match iff every instantiation is accepted, and Location, Action::get_target, the header-filter value and the text/HTML body-filter values must equal the template with every reference replaced by the transformer chain applied to the captured string (marker transformers, then variable transformers; explicit variables of kinds marker / request header with default / host / method / scheme / path in shuffled declaration order).",
+         "std case mapping and the heck crate as transformer primitives; captured values never contain '@'; slice on ASCII captures with from <= to.",
+         "5/C10"),
+})
+
 PENDING_REASON = "monitor under construction in this session; not claimed until its check is registered"
 
 def main():
